@@ -85,6 +85,14 @@ def probe(ctx, which, st, xd0, t):
     Raises SolverRaised for vacuum-forming / out-of-bracket states (loud, counted)."""
     s = make_solver(ctx, which, st, xd0)
     ctx.call(s, np.array([xd0]), t)
+    # near-vacuum star states: the ideal-gas solver finds p* with bisect's default *absolute*
+    # xtol = 2e-12, so a star pressure below ~1e-7 (user units) is known to fewer than 5 digits and
+    # below ~1e-11 not at all.  That loss of accuracy is recorded under C08 (it breaks scale
+    # invariance); relational monitors cannot decide anything on such a case and skip it (counted).
+    pmin = float(np.min(np.asarray(s.p, dtype=float)))
+    if not (pmin > 1e-7):
+        ctx.count("near_vacuum_star_state_skipped")
+        raise Skip("near_vacuum_star_pressure_below_root_tolerance")
     return pattern_of(s.soln_type), np.array(s.Vregs, dtype=float)
 
 
